@@ -99,3 +99,60 @@ VARIANTS = [
     V("c04-split-limit", "C04", C2, 'metric, value = field.split(":")', 'metric, value = field.split(":", 1)', rule="C04.store.split"),
     V("c04-mandatory-exc-class", "C04", C3, "raise CVSS3MandatoryError(", "raise CVSS3MalformedError(", rule="C04.kinds"),
 ]
+
+PAR = "cvss/parser.py"
+INT = "cvss/interactive.py"
+CLI = "cvss/cvss_calculator.py"
+
+VARIANTS += [
+    # ---------------------------------------------------------------- C05
+    V("c05-clean-iterates-parsed", ["C05", "C07"], C3, "for metric in METRICS_ABBREVIATIONS:\n            if metric in self.original_metrics:\n                value = self.original_metrics[metric]", "for metric in self.original_metrics:\n            if metric in self.original_metrics:\n                value = self.original_metrics[metric]", rule="C0"),
+    V("c05-get-default-none", "C05", C2, 'if all(self.metrics.get(a, "ND") == "ND" for a in TEMPORAL_METRICS):', 'if all(self.metrics.get(a) is None for a in TEMPORAL_METRICS):', rule="C05.nd"),
+    V("c05-ms-x-differs", "C05", C3, 'if self.modified_scope in [None, "X"]:', "if self.modified_scope in [None]:", rule="C05.nd"),
+    V("c05-v4-e-not-defaulted", "C05", C4, '            "AR",\n            "E",\n        ]:\n            if abbreviation not in self.metrics:', '            "AR",\n        ]:\n            if abbreviation not in self.metrics:', rule="C0"),
+    V("c05-last-seen", "C05", C3, "                    self.metrics[metric] = value\n                else:", "                    self.metrics[metric] = value\n                    self.missing_metrics = [metric]\n                else:", rule="C05.order.parse"),
+    V("c05-clean-keeps-x-absent-differs", ["C05", "C07"], C3, '                if value != "X":\n                    vector.append("{0}:{1}".format(metric, value))\n        if output_prefix:\n            prefix = "CVSS:3.{0}/"', '                if value != "X" or metric == "E":\n                    vector.append("{0}:{1}".format(metric, value))\n        if output_prefix:\n            prefix = "CVSS:3.{0}/"', rule="C0"),
+    # ---------------------------------------------------------------- C06
+    V("c06-supplemental-read", "C06", C4, 'if self.m("E") == "A":\n            eq5 = "0"', 'if self.m("E") == "A" and self.m("S") != "P":\n            eq5 = "0"', rule="C06.c"),
+    V("c06-e-x-weight", "C06", K3, '"E": {"X": D("1"), "H": D("1"),', '"E": {"X": D("0.97"), "H": D("1"),', rule="C06.b"),
+    V("c06-env-uses-base-ac", "C06", C3, '            * self.get_value("MAC")\n', '            * self.get_value("AC")\n', rule="C06"),
+    V("c06-base-leak-temporal", "C06", C2, "self.base_score = max(D(\"0.0\"), self.base_score_equation())", "self.base_score = max(D(\"0.0\"), self.base_score_equation()) * self.get_value(\"RC\")", rule="C06.e"),
+    V("c06-m-base-wins", "C06", C4, 'if modified_selected != "X":\n                return modified_selected', 'if modified_selected != "X" and metric != "UI":\n                return modified_selected', rule="C06"),
+    # ---------------------------------------------------------------- C07
+    V("c07-prefix-no-minor", "C07", C3, 'prefix = "CVSS:3.{0}/".format(self.minor_version)', 'prefix = "CVSS:3.0/"', rule="C07"),
+    V("c07-hash-raw", "C07", C3, "return hash(self.clean_vector())", "return hash(self.vector)", rule="C07.eq.hash"),
+    V("c07-drop-isinstance", "C07", C2, "        if isinstance(o, CVSS2):\n            return self.clean_vector() == o.clean_vector()\n        return False", "        return self.clean_vector() == o.clean_vector()", rule="C07.eq"),
+    V("c07-eq-noprefix", "C07", C3, "return self.clean_vector() == o.clean_vector()", "return self.clean_vector(output_prefix=False) == o.clean_vector(output_prefix=False)", rule="C07.eq"),
+    V("c07-clean-from-filled", "C07", C3, "            if metric in self.original_metrics:\n                value = self.original_metrics[metric]\n                if value != \"X\":", "            if metric in self.metrics:\n                value = self.metrics[metric]\n                if value != \"X\":", rule="C07.emit"),
+    V("c07-table-mismatch", "C07", K4, '        ("MSA", "Modified Subsequent System Impact Availability"),\n', "", rule="C07.emit"),
+    V("c07-sep", "C07", C2, 'return "/".join(vector)', 'return ",".join(vector)', rule="C07.emit.sep"),
+    V("c07-rename-local-N", "C07", C2, '        vector = []\n        for metric in METRICS_ABBREVIATIONS:\n            if metric in self.metrics:\n                value = self.metrics[metric]\n                if value != "ND":\n                    vector.append("{0}:{1}".format(metric, value))\n        return "/".join(vector)', '        parts = []\n        for m_ in METRICS_ABBREVIATIONS:\n            if m_ in self.metrics:\n                val = self.metrics[m_]\n                if val != "ND":\n                    parts.append(m_ + ":" + val)\n        return "/".join(parts)', "silent"),
+    # ---------------------------------------------------------------- C12
+    V("c12-tolerance", "C12", C3, "if cvss_object.scores()[0] == score_value:", "if abs(cvss_object.scores()[0] - score_value) < 0.05:", rule="C12.parse.compare"),
+    V("c12-slot1", "C12", C3, "if cvss_object.scores()[0] == score_value:", "if cvss_object.scores()[1] == score_value:", rule="C12.parse.compare"),
+    V("c12-split-nolimit", "C12", C2, 'score, base_vector = vector.split("/", 1)', 'score, base_vector = vector.split("/")', rule="C12.parse.split"),
+    V("c12-rh-int", "C12", C2, 'return str(self.scores()[0]) + "/" + self.clean_vector()', 'return str(int(self.scores()[0])) + "/" + self.clean_vector()', rule="C12.emit"),
+    V("c12-rh-temporal", "C12", C3, 'return str(self.scores()[0]) + "/" + self.clean_vector()', 'return str(self.scores()[1]) + "/" + self.clean_vector()', rule="C12.emit"),
+    V("c12-wrong-exc", "C12", C4, "        except ValueError:\n            raise CVSS4RHMalformedError(\n                'Malformed CVSS4 vector in Red Hat notation \"{0}\"'.format(vector)\n            )\n        cvss_object", "        except ValueError:\n            raise CVSS4MalformedError(\n                'Malformed CVSS4 vector in Red Hat notation \"{0}\"'.format(vector)\n            )\n        cvss_object", rule="C12.parse.number"),
+    V("c12-swallow-ctor", "C12", C3, "        cvss_object = cls(base_vector)\n", "        try:\n            cvss_object = cls(base_vector)\n        except Exception:\n            raise CVSS3RHMalformedError(\"bad\")\n", rule="C12.parse.ctor"),
+    V("c12-format-N", "C12", C2, 'return str(self.scores()[0]) + "/" + self.clean_vector()', 'return "{0}/{1}".format(self.scores()[0], self.clean_vector())', "silent"),
+    # ---------------------------------------------------------------- C15
+    V("c15-order", "C15", K2, 'TEMPORAL_METRICS = ["E", "RL", "RC"]', 'TEMPORAL_METRICS = ["E", "RC", "RL"]', rule="C15.emit.order"),
+    V("c15-v3-original", "C15", C3, '[metric + ":" + self.metrics.get(metric, "X") for metric in ENVIRONMENTAL_METRICS]', '[metric + ":" + self.original_metrics.get(metric, "X") for metric in ENVIRONMENTAL_METRICS]', rule="C15.emit.value"),
+    V("c15-missing-metric", "C15", K3, 'ENVIRONMENTAL_METRICS = ["CR", "IR", "AR", "MAV", "MAC", "MPR", "MUI", "MS", "MC", "MI", "MA"]', 'ENVIRONMENTAL_METRICS = ["CR", "IR", "AR", "MAV", "MAC", "MPR", "MUI", "MC", "MS", "MI", "MA"]', rule="C15.emit.order"),
+    # ---------------------------------------------------------------- C18
+    V("c18-pop-in-scores", "C18", C2, "        scores = (self.base_score, self.temporal_score, self.environmental_score)\n", "        self.metrics.pop(\"E\", None)\n        scores = (self.base_score, self.temporal_score, self.environmental_score)\n", rule="C18"),
+    V("c18-memo-json", "C18", C3, "        if sort:\n            data = OrderedDict(sorted(data.items()))\n        return data\n\n    def __hash__(self):\n        return hash(self.clean_vector())\n\n    def __eq__(self, o):\n        if isinstance(o, CVSS3)", "        if sort:\n            data = OrderedDict(sorted(data.items()))\n        self._json = data\n        return data\n\n    def __hash__(self):\n        return hash(self.clean_vector())\n\n    def __eq__(self, o):\n        if isinstance(o, CVSS3)", rule="C18"),
+    V("c18-name-row-missing", "C18", K3, '[("X", "Not Defined"), ("C", "Confirmed"), ("R", "Reasonable"), ("U", "Unknown")]', '[("X", "Not Defined"), ("C", "Confirmed"), ("U", "Unknown")]', rule="C18.total"),
+    V("c18-clean-fills-original", "C18", C3, "        vector = []\n        for metric in METRICS_ABBREVIATIONS:\n            if metric in self.original_metrics:", "        vector = []\n        self.original_metrics.setdefault(\"E\", \"X\")\n        for metric in METRICS_ABBREVIATIONS:\n            if metric in self.original_metrics:", rule="C18"),
+    V("c18-return-metrics", "C18", C4, "    def scores(self):", "    def raw(self):\n        return self.metrics\n\n    def scores(self):", "silent"),
+    # ---------------------------------------------------------------- C19
+    V2("c19-module-cache", "C19", [(C3, "def round_up(value):", "_CACHE = {}\n\n\ndef round_up(value):"), (C3, "        self.vector = vector\n        self.minor_version = None", "        _CACHE[vector] = 1\n        self.vector = vector\n        self.minor_version = None")], rule="C19.globals"),
+    V2("c19-getcontext", "C19", [(C2, "from decimal import ROUND_HALF_UP", "from decimal import ROUND_HALF_UP, getcontext"), (C2, "    return value.quantize(D(\"0.1\"), rounding=ROUND_HALF_UP)", "    getcontext().prec = 10\n    return value.quantize(D(\"0.1\"), rounding=ROUND_HALF_UP)")], rule="C19.ambient"),
+    V("c19-print-lib", "C19", C3, "        self.vector = vector\n        self.minor_version = None", "        print(vector)\n        self.vector = vector\n        self.minor_version = None", rule="C19.ambient.io"),
+    V("c19-class-attr", "C19", C2, 'class CVSS2(object):\n    """\n    Class to hold CVSS2 vector, parsed values, and all scores.\n    """\n', 'class CVSS2(object):\n    """\n    Class to hold CVSS2 vector, parsed values, and all scores.\n    """\n\n    seen = []\n', rule="C19.toplevel"),
+    V("c19-table-write", "C19", C3, "        self.vector = vector\n        self.minor_version = None", "        METRICS_VALUES[\"E\"][\"X\"] = D(\"1\")\n        self.vector = vector\n        self.minor_version = None", rule="C19.globals"),
+    V("c19-quantize-no-mode", "C19", C2, 'return value.quantize(D("0.1"), rounding=ROUND_HALF_UP)', 'return value.quantize(D("0.1"))', rule="C19.rounding"),
+    V("c19-set-return", "C19", PAR, "    return cvsss\n", "    return list(set(cvsss))\n", rule="C19.hashorder"),
+    V("c19-default-arg", "C19", C3, "def clean_vector(self, output_prefix=True):", "def clean_vector(self, output_prefix=True, _seen=[]):", rule="C19.globals"),
+]
